@@ -45,7 +45,9 @@ PROPS = {
                      # "the k-th send fails" below the seam: the kernel itself refuses one probe of a real run
                      enum("TestC10KernelSendError"), enum("TestC10KernelFilterNoMem")]},
     "C06": {"jobs": [rapid("TestC06", 1200, 8000), rapid("TestC06Engine", 4000, 30000), enum("TestC06Reuse"), enum("TestC06AllTTLs"), enum("TestC06UDP6ChecksumSearch"), rapid("TestC06Concurrent", 600, 4000), enum("TestC06KernelSink")]},
-    "C20": {"jobs": [enum("TestC20Table"), rapid("TestC20", 2000, 2000), enum("TestC20ConnectTimeout")]},
+    "C20": {"jobs": [enum("TestC20Table"), rapid("TestC20", 2000, 2000), enum("TestC20ConnectTimeout"),
+                     # a SACK failure that is not "SACK unavailable", produced by the kernel: the connection's local address differs from the discovered one
+                     {"kind": "script", "name": "C20KernelSplitSrc", "run": "C20KernelSplitSrc", "cmd": ["python3", "c13_kernel.py"], "env": {"VERIF_C13_ONLY": "splitsrc", "VERIF_C13_PROP": "C20"}, "timeout_quick": 600, "timeout_thorough": 1200}]},
     "C11": {"jobs": [rapid("TestC11", 800, 4000), rapid("TestC11Request", 800, 3000), rapid("TestC11Alloc", 500, 3000), enum("TestC11EchoIDs"), enum("TestC11EchoIDsConcurrent"), enum("TestC11AllocWrap")]},
     "C12": {"jobs": [enum("TestC12Classes"),
                      # the drop-all / drain / attach sequence on a real AF_PACKET handle in a private network namespace
@@ -64,11 +66,11 @@ PROPS = {
                      rapid("TestC15", 300, 1500, race=True, name="TestC15(race)", thorough_only=True, env={"GORACE": "halt_on_error=1 exitcode=66"}),
                      {"kind": "script", "name": "C13KernelRace", "run": "C13KernelRace", "cmd": ["python3", "c13_kernel.py"], "env": {"VERIF_C13_RACE": "1"}, "timeout_quick": 900, "timeout_thorough": 2400}]},
     "C15": {"jobs": [rapid("TestC15", 2500, 8000)]},
-    "C16": {"jobs": [rapid("TestC16", 20000, 120000), enum("TestC16ConcurrentIDs")]},
+    "C16": {"jobs": [rapid("TestC16", 20000, 120000), enum("TestC16ConcurrentIDs"), enum("TestC16AfterFailedWrite")]},
     "C17": {"jobs": [rapid("TestC17Docs", 10000, 60000), rapid("TestC17Request", 1000, 4000),
                      # the command line's own handling of --skip-private-hops (flag order, spellings), on a real path with private routers
                      {"kind": "script", "name": "CliFlagsC17", "run": "CliFlagsC17", "cmd": ["python3", "cli_flags.py"], "env": {"CLI_FLAGS_PROP": "C17"}, "timeout_quick": 600, "timeout_thorough": 1800}]},
-    "C18": {"jobs": [rapid("TestC18Enrich", 5000, 30000), rapid("TestC18Cache", 4000, 30000), rapid("TestC18Providers", 4000, 20000)]},
+    "C18": {"jobs": [rapid("TestC18Enrich", 5000, 30000), rapid("TestC18Cache", 4000, 30000), rapid("TestC18Providers", 4000, 20000), enum("TestC18ProductionClient")]},
     "C19": {"jobs": [rapid("TestC19", 3000, 8000), enum("TestC19Extremes"), enum("TestC19Spellings"), enum("TestC19Defaults"),
                      {"kind": "script", "name": "CliFlagsC19", "run": "CliFlagsC19", "cmd": ["python3", "cli_flags.py"], "env": {"CLI_FLAGS_PROP": "C19"}, "timeout_quick": 600, "timeout_thorough": 1800}]},
 }
